@@ -18,7 +18,9 @@ def trace (fails : List Nat) (early : Bool) : List Ev :=
   let cycle (k : Nat) : List Ev :=
     (List.replicate k [Ev.wake, Ev.lockFail]).flatten ++ [.wake, .lockOk]
   if early then
-    (cycle (fails.headD 0)) ++ [.expire, .setFlag, .enterWait, .sweep, .reconnect, .sweep]
+    -- the expiry strikes inside the successful Lock(): the manager sees the changed expiration count, does not
+    -- wait, clears the flag, and goes through the whole resume protocol
+    (cycle (fails.headD 0)) ++ [.expire, .setFlag, .enterWait, .clearFlag, .loopExit, .reconnect, .seeConnected, .unlockOk, .wake]
   else
     (fails.flatMap fun k => cycle k ++ [.setFlag, .enterWait, .sweep, .expire, .clearFlag, .loopExit, .reconnect, .seeConnected, .unlockOk])
     ++ [.wake]
